@@ -443,8 +443,22 @@ class Parser:
                     if x[0] == 'eof': raise Unsupported("unterminated macro")
                     if x[0] == 'op' and x[1] in ('(', '[', '{'): d += 1
                     if x[0] == 'op' and x[1] in (')', ']', '}'): d -= 1
-                    if d: raw.append(x[1])
-                return ('macro', path[0], tuple(raw))
+                    if d: raw.append((x[0], x[1]))
+                if path == ['write']:
+                    # `write!(f, "<fmt>")` / `write!(f, "<fmt>", e1, …)`: the formatter, the format string and the parsed arguments
+                    try:
+                        sub = Parser(list(raw) + [('eof', '')])
+                        dest = sub.expr(); sub.eat('op', ','); fmt = sub.next()
+                        if fmt[0] != 'str': raise Unsupported("write! without a literal format")
+                        fargs = []
+                        while sub.atop(','):
+                            sub.next()
+                            if sub.at('eof'): break
+                            fargs.append(sub.expr())
+                        if sub.at('eof'): return ('writefmt', dest, unesc(fmt[1]) if isinstance(fmt[1], str) else fmt[1], fargs)
+                    except Unsupported:
+                        pass
+                return ('macro', path[0], tuple(v for _, v in raw))
             if self.atop('!'): raise Unsupported("macro " + '::'.join(path) + "!")
             if self.atop('{') and not nostruct and path[-1][0].isupper():
                 self.next(); fields = []
